@@ -93,3 +93,31 @@ package series
 //@   safe
 //@   ensures [a-loaded-table-holds-the-entries-it-announces] implies(result3 == nil, result2 == 0 || (result2 <= 4294967295 && (result0 == 1 || result0 == 2) && len(result1) >= tsoHdr(result0) + 12*int(result2)))
 //@ end
+
+// C18 (damage in one segment's files never changes what another segment's query
+// returns): the two file buffers of a segment reader come from a shared pool.
+// A buffer the reader has handed back may be given to a reader of ANOTHER
+// segment at once, so the reader must not keep referring to it — a later Close
+// or re-initialisation would hand it back a second time while the other reader
+// decodes from it.  On every return of InitReaderForBlock — in particular the
+// error returns taken when the block's .tso or .tsg file is damaged — each
+// buffer field has been re-assigned since the buffer it held was handed back.
+// Ghost bufsHandedBack: the number of buffers handed back to the pool whose
+// field has not been re-assigned yet (order-independent: either buffer first).
+//@ ghostdecl bufsHandedBack int
+//@ func (*TimeSeriesSegmentReader).InitReaderForBlock
+//@   props C18
+//@   assumecalleerequires
+//@   requires tssr != nil
+//@   ghostinit ghost(0, "bufsHandedBack") == 0
+//@   site callret PutBufToPool #1:
+//@     ghostset ghost(0, "bufsHandedBack") = ghost(0, "bufsHandedBack") + ite(result == nil, 1, 0)
+//@   site callret PutBufToPool #2:
+//@     ghostset ghost(0, "bufsHandedBack") = ghost(0, "bufsHandedBack") + ite(result == nil, 1, 0)
+//@   site callret GetBufFromPool #1:
+//@     ghostset ghost(0, "bufsHandedBack") = ite(ghost(0, "bufsHandedBack") > 0, ghost(0, "bufsHandedBack") - 1, 0)
+//@   site callret GetBufFromPool #2:
+//@     ghostset ghost(0, "bufsHandedBack") = ite(ghost(0, "bufsHandedBack") > 0, ghost(0, "bufsHandedBack") - 1, 0)
+//@   ensures [no-buffer-handed-back-to-the-pool-is-still-referenced-by-the-reader] ghost(0, "bufsHandedBack") == 0
+//@   note the result of each GetBufFromPool is taken to be stored into the field whose buffer was handed back just before; that PutBufToPool / GetBufFromPool and the file loaders do not write the reader's two buffer fields is part of their (assumed or verified) frames
+//@ end
